@@ -46,3 +46,9 @@ if __name__ == '__main__':
     ok = [n for n, r in out if r is not None]
     print('benign changes: %d applied, with any alarm: %d, (change, check) alarms: %d' % (
         len(ok), sum(1 for n, r in out if r), n_alarm))
+    ka = os.path.join(HERE, 'benign', 'KNOWN_ALARMS.json')
+    if os.path.exists(ka):
+        known = set(json.load(open(ka))) - {'_comment'}
+        now = {n for n, r in out if r}
+        print('listed in KNOWN_ALARMS.json and alarming: %d; alarming but not listed: %s; listed but silent now: %s' % (
+            len(now & known), sorted(now - known), sorted((known & {n for n, r in out if r is not None}) - now)))
